@@ -16,8 +16,9 @@
      taken and the task suspends in cancel_shielded_checkpoint (phase FastYield b).
      Resumption of a waiter: normal -> return.  Exception -> `_wait_queue.pop(b, None)`; if the event is set
      (the token had been granted, before or after the cancellation) `discard(b)` and `_notify_next_waiter()`.
-     Resumption from the shielded yield with a (native) cancellation: `self.release()`, which is
-     release_on_behalf_of(current_task()) - NOT of b.
+     Resumption from the shielded yield with a (native) cancellation: `self.release_on_behalf_of(b); raise`
+     (HEAD, after the D1 fix cf4519f).  `fy_cancel_pinned` keeps the pre-fix behaviour (`self.release()`, i.e.
+     release_on_behalf_of(current_task()) - NOT of b) for the refutation witness.
    * total_tokens setter (HEAD, after the F1 fix): store, then wake queue heads while len(borrowers) < total.
      `set_total_pinned` keeps the pre-fix behaviour (wake max(new - old, 0) heads) for the refutation witness.
    * Ghost state: held (borrowers whose acquire returned and that were not released since), resv (borrowers
@@ -27,9 +28,9 @@
      (it is compared with the implementation on such histories too), only the invariant is conditional:
        O1  acquire_on_behalf_of(b) enqueues while another acquire for the same b is still queued
            (DESIGN observation O1: the second call overwrites the first call's queue entry);
-       O2  release_on_behalf_of(b) while the acquire call that obtained b's token has not returned yet;
-       D1  a native cancellation hits the shielded yield of acquire_on_behalf_of(b) with b <> current task:
-           `self.release()` releases the wrong borrower (code defect, see lim_cancel_foreign_fastyield_refuted). *)
+       O2  release_on_behalf_of(b) while the acquire call that obtained b's token has not returned yet.
+     (Only the pinned variant `fy_cancel_pinned` additionally taints: D1, a native cancellation hits the shielded
+      yield of acquire_on_behalf_of(b) with b <> current task and the wrong borrower is released.) *)
 From AV Require Import Base C10Defs.
 
 Definition bid := nat.
@@ -166,7 +167,18 @@ Definition taint (s : st) (c : bool) : st :=
   mk (total s) (borrowers s) (queue s) (evset s) (nev s) (phase_of s) (fcanc s) (mustc s)
      (held s) (resv s) (arrivals s) (tainted s || c).
 
-Definition step_gen (setter : st -> option nat -> st) (s : st) (o : op) : st * res :=
+(* `except BaseException:` of the shielded yield (lines 2181-2185), executed in s1 = the state in which task t
+   has left the call.  HEAD: release_on_behalf_of(b); raise *)
+Definition fy_cancel (s1 : st) (t : tid) (b : bid) : st * res :=
+  if mem b (borrowers s1) then (give_back s1 b, RCancelled) else (s1, RRuntime).
+
+(* before the fix: self.release() = release_on_behalf_of(current_task()) *)
+Definition fy_cancel_pinned (s1 : st) (t : tid) (b : bid) : st * res :=
+  if mem t (borrowers s1) then (taint (give_back s1 t) (negb (Nat.eqb b t)), RCancelled)
+  else (taint s1 true, RRuntime).
+
+Definition step_gen (setter : st -> option nat -> st) (fyc : st -> tid -> bid -> st * res)
+                    (s : st) (o : op) : st * res :=
   match o with
   | AcqOn t b =>
       if negb (is_idle (phase_of s t)) then (s, RRejected) else
@@ -207,10 +219,7 @@ Definition step_gen (setter : st -> option nat -> st) (s : st) (o : op) : st * r
       | Idle => (s, RRejected)
       | FastYield b =>
           let s1 := leave s t (remove_one b (resv s)) in
-          if mustc s t then
-            (* except BaseException: self.release(); raise      (lines 2145-2147) *)
-            if mem t (borrowers s1) then (taint (give_back s1 t) (negb (Nat.eqb b t)), RCancelled)
-            else (taint s1 true, RRuntime)
+          if mustc s t then fyc s1 t b
           else (add_held s1 b, RDone)
       | Waiting b e =>
           if negb (evset s e) && negb (fcanc s t) then (s, RRejected)    (* not runnable *)
@@ -232,8 +241,9 @@ Definition step_gen (setter : st -> option nat -> st) (s : st) (o : op) : st * r
       end
   end.
 
-Definition step := step_gen set_total.
-Definition step_pinned := step_gen set_total_pinned.
+Definition step := step_gen set_total fy_cancel.
+Definition step_pinned := step_gen set_total_pinned fy_cancel.       (* before the F1 fix (bce1e1d) *)
+Definition step_d1_pinned := step_gen set_total fy_cancel_pinned.    (* before the D1 fix (cf4519f) *)
 
 (* ---- observable output of a step (what the harness compares) ---- *)
 Definition res_code (r : res) : Z :=
